@@ -206,6 +206,33 @@ class C03(core.Check):
                 f.parseStr('<p>next</p>')
             except Exception as e:
                 return '%s(%r) on %r raised %s' % (cls.__name__, kw, html, type(e).__name__)
+        # parseFile of the same text (a sample of the inputs: those that can be written as utf-8, every 6th by content), every formatter,
+        # with the default encoding and with encoding=None
+        try:
+            raw = html.encode('utf-8')
+        except UnicodeEncodeError:
+            return None
+        if sum(raw) % 6 == 0 or len(html) < 12:
+            import os
+            import tempfile
+            d = tempfile.mkdtemp(dir=str(core.BUILD))
+            try:
+                path = os.path.join(d, 'doc.html')
+                with open(path, 'wb') as fh:
+                    fh.write(raw)
+                for cls, kw in configs + [(c, dict(encoding=None)) for c in (F.AdvancedHTMLMiniFormatter, F.AdvancedHTMLSlimTagFormatter, F.AdvancedHTMLSlimTagMiniFormatter)]:
+                    try:
+                        f = cls(**kw)
+                        f.parseFile(path)
+                        if f.root is not None and not isinstance(f.getHTML(), str):
+                            return '%s(%r).parseFile: getHTML() is not a string for %r' % (cls.__name__, kw, html)
+                    except Exception as e:
+                        if isinstance(e, ValueError) and f.root is None:
+                            continue        # the recorded finding (no complete token): reported through parseStr above
+                        return '%s(%r).parseFile on a file holding %r raised %s' % (cls.__name__, kw, html, type(e).__name__)
+            finally:
+                import shutil
+                shutil.rmtree(d, ignore_errors=True)
         return None
 
     def shrink_candidates(self, case):
